@@ -30,3 +30,4 @@ Leave the worktree with your change applied and the demo file in place. Reply wi
 # sentence: "Do NOT place your change in <files touched by the round-1 seed> ...; pick a different file
 # and a different clause of the property than the most obvious one."
 # Round 3 prompts: same template, worktree id <PID>r3, files of the round-1 and round-2 seeds excluded.
+# Round 4 prompts: as round 3 with the files of rounds 1-3 excluded.
